@@ -4,6 +4,7 @@ import (
 	"context"
 	"fmt"
 	"net/url"
+	"sync"
 
 	protocol "github.com/longportapp/openapi-protocol/go"
 )
@@ -38,15 +39,23 @@ type ClientConn interface {
 }
 
 type closeCallback struct {
+	// mu guards callbacks: a conn can be closed by its own goroutines while its owner is still registering
+	mu        sync.Mutex
 	callbacks []func(error)
 }
 
 func (c *closeCallback) OnClose(cb func(error)) {
+	c.mu.Lock()
 	c.callbacks = append(c.callbacks, cb)
+	c.mu.Unlock()
 }
 
 func (c *closeCallback) DispatchClose(err error) {
-	for _, cb := range c.callbacks {
+	c.mu.Lock()
+	cbs := append([]func(error){}, c.callbacks...)
+	c.mu.Unlock()
+
+	for _, cb := range cbs {
 		cb(err)
 	}
 }
